@@ -145,8 +145,14 @@ func (gc *primaryGC) gc(ctx context.Context, lowUsePercent int64, timeLimit time
 		defer cancel()
 	}
 
+	// The number of the file being written changes, under flushLock, whenever
+	// a flush starts a new file.
+	gc.primary.flushLock.Lock()
+	lastFileNum := gc.primary.fileNum
+	gc.primary.flushLock.Unlock()
+
 	// GC each unvisited file in order.
-	for fileNum := header.FirstFile; fileNum != gc.primary.fileNum; fileNum++ {
+	for fileNum := header.FirstFile; fileNum != lastFileNum; fileNum++ {
 		if _, ok := gc.visited[fileNum]; ok {
 			continue
 		}
